@@ -988,11 +988,12 @@ func reusedValues(c *hc.Ctx, g *Grid, poly [][]Pt, ids []int, cfg snap.Config, w
 		perm := c.Rng.Perm(g.DeepestID + 1)
 		other := perm[:len(ids)]
 		if !reflect.DeepEqual(other, ids) {
-			copy(buf, other)
+			buf2 := make([]int, len(ids)) // a buffer of its own: the calls above must not have seen it
+			copy(buf2, other)
 			fp2, _ := g.toFloatPoly(poly)
-			_ = runSnapShared(g, fp2, buf, cfg, watchdog)
-			copy(buf, ids)
-			got := runSnapShared(g, fp2, buf, cfg, watchdog)
+			_ = runSnapShared(g, fp2, buf2, cfg, watchdog)
+			copy(buf2, ids)
+			got := runSnapShared(g, fp2, buf2, cfg, watchdog)
 			c.Sum.Evaluations++
 			c.Count("id buffer refilled between two requests")
 			if got.Panic != want.Panic || !reflect.DeepEqual(got.Raw, want.Raw) {
